@@ -3,6 +3,8 @@
 cd "$(dirname "$0")" || exit 1
 rc=0
 cd spec
+jt=$(mktemp -d)
+export JAVA_TOOL_OPTIONS="-Djava.io.tmpdir=$jt"
 for m in Manager_Trace MC_Routing MC_Identity MC_Failures MC_Stats MC_Hostile ClientSys_Trace ClientRead_Trace MC_Layout MC_Imports HashCanon MC_Defs \
          Validation_Trace Codec_Trace DataLogger_Trace ClientSend ClientIdent WebProxy LoggerCtl; do
   if [ -f "$m.tla" ]; then
@@ -10,6 +12,8 @@ for m in Manager_Trace MC_Routing MC_Identity MC_Failures MC_Stats MC_Hostile Cl
   fi
 done
 rm -f /tmp/sany_$$.log
+rm -rf "$jt"
+unset JAVA_TOOL_OPTIONS
 cd ..
 /venv/bin/python -c "import sys; sys.path.insert(0, '/repo/src'); import pyrtma, pyrtma.manager, pyrtma.client, pyrtma.parser" || rc=1
 exit $rc
